@@ -246,4 +246,86 @@ Proof.
   - intros e h' _ key. rewrite exec_app. cbn. apply (Hlater h' e).
 Qed.
 
+(* ------------------------------------------------ (D) a revocation needs THAT key's own signature *)
+Section KeepOthers.
+Variables (now : Z) (keys : list key) (sigs : list sig) (ksk2 : kmap) (tombs2 : tmap) (t0 : N) (a : ta).
+Let fm := fetched_map tag keys.
+Let tags := sort_tags (map fst fm).
+Let staged := stage tag ksk2 tombs2 sigs fm tags.
+(* no REVOKE-flagged key of a's material in the response carries a valid signature made with itself *)
+Hypothesis Hnosig : forall t' k, lookup t' fm = Some k -> is_rev k = true -> k_mat k = ta_mat a -> verify_with tag [k] sigs = false.
+
+Definition KO (s : pst) : Prop :=
+  lookup t0 (p_ksk s) = Some a /\ mem (ta_mat a) (p_tombs s) = false /\ ~ In (ta_mat a) (p_revs s).
+
+Lemma process_one_KO ro s t : KO s -> KO (process_one tag now ro fm staged s t).
+Proof.
+  intros (Hl & Hm & Hr). unfold process_one.
+  destruct (lookup t fm) as [k|] eqn:Ef; [|repeat split; assumption].
+  destruct (mem (k_mat k) (p_tombs s)); [repeat split; assumption|].
+  destruct (ident_existing (p_ksk s) t k); [repeat split; assumption|].
+  destruct (is_rev k) eqn:Er.
+  - destruct (lookup (tag (unrev k)) (p_ksk s)) as [old|] eqn:Eo; [|repeat split; assumption].
+    destruct (is_trusted_st old && same_except_revoke (ta_key old) k && staged_ok staged t) eqn:Ec; [|repeat split; assumption].
+    apply andb_true_iff in Ec. destruct Ec as [Ec Hst]. apply andb_true_iff in Ec. destruct Ec as [_ Hse].
+    apply same_except_revoke_mat in Hse.
+    apply staged_ok_spec in Hst. destruct Hst as (k' & Ef' & Hv). fold fm in Ef'. rewrite Ef in Ef'. inversion Ef'; subst k'.
+    assert (Hne : k_mat k <> ta_mat a) by (intros E; rewrite (Hnosig t k Ef Er E) in Hv; discriminate).
+    unfold KO. cbn [p_ksk p_tombs p_revs]. split; [|split].
+    + rewrite lookup_set_neq; [exact Hl|]. intros E. rewrite E in Eo. rewrite Hl in Eo. inversion Eo; subst old.
+      apply Hne. symmetry. exact Hse.
+    + rewrite mem_set. destruct (k_mat k =? ta_mat a) eqn:E; [apply N.eqb_eq in E; contradiction|exact Hm].
+    + intros [E|Hin]; [apply Hne; exact E|exact (Hr Hin)].
+  - destruct ro; [repeat split; assumption|]. destruct (lookup t (p_ksk s)) eqn:El; [repeat split; assumption|].
+    unfold KO. cbn [p_ksk p_tombs p_revs]. split; [|split; assumption].
+    rewrite lookup_set_neq; [exact Hl|]. intros E. rewrite E in El. congruence.
+Qed.
+
+Lemma process_KO ro s : KO s -> KO (process tag now ro fm staged tags s).
+Proof. intros H. unfold process. apply (fold_left_inv KO); [exact H|]. intros. apply process_one_KO. assumption. Qed.
+
+End KeepOthers.
+
+(* A response accepted in revocation-only mode leaves every trusted anchor alone whose own REVOKE-flagged,
+   self-signed form is not in it: the anchor stays live, its state entry is written back unchanged, its
+   material is neither tombstoned nor counted as revoked — whatever other REVOKE-flagged keys the response
+   carries and whoever signed it (seeded change C09-10: a compromised, revoked K1 must not be able to
+   remove a healthy K2 by listing K2+REVOKE in a set only K1 signs). *)
+Lemma revoked_only_keeps_other_anchors_lemma live cfg d now keys sigs fl ksk2 tombs2 t a :
+  prefetch tag live cfg d now fl = Some (ksk2, tombs2) ->
+  authenticate tag (trusted_keys ksk2) keys sigs = AuthRevOnly ->
+  lookup t ksk2 = Some a -> is_trusted_st a = true ->
+  (forall t' k, lookup t' (fetched_map tag keys) = Some k -> is_rev k = true -> k_mat k = ta_mat a -> verify_with tag [k] sigs = false) ->
+  (f_twrite fl = false \/ f_swrite fl = false) ->
+  let r := autota tag live cfg d now (FResp keys sigs) fl in
+  In (ta_key a) (r_live r) /\
+  (forall s5, In (WState s5) (r_writes r) -> lookup t s5 = Some a) /\
+  (forall tb, In (WTomb tb) (r_writes r) -> mem (ta_mat a) tb = false) /\
+  ~ In (ta_mat a) (r_revoked r).
+Proof.
+  intros Hp Ha Hl Htr Hns Hw. unfold autota. rewrite Hp, Ha.
+  set (fm := fetched_map tag keys) in *.
+  set (s3 := process tag now true fm _ _ _).
+  assert (Hnm : is_marker a = false).
+  { destruct (is_marker a) eqn:E; [|reflexivity]. rewrite (marker_not_trusted _ E) in Htr. discriminate. }
+  assert (H3 : KO t a s3).
+  { unfold s3. apply (process_KO now keys sigs ksk2 tombs2 t a Hns). unfold KO. cbn. split; [exact Hl|]. split; [|intros []].
+    apply (prefetch_clean tag _ _ _ _ _ _ _ Hp t a (lookup_in _ _ _ Hl) Hnm). }
+  destruct H3 as (Hl3 & Hm3 & Hr3).
+  unfold tail. cbn [r_live r_writes r_revoked p_ksk p_tombs p_revs].
+  assert (H5 : lookup t (if negb (f_twrite fl) then filter (fun e => negb (is_marker (snd e))) (p_ksk s3) else p_ksk s3) = Some a).
+  { destruct (negb (f_twrite fl)); [|exact Hl3]. apply lookup_filter_keep; [exact Hl3|]. cbn. rewrite Hnm. reflexivity. }
+  split; [|split; [|split]].
+  - assert (Hb : negb (negb (f_twrite fl)) && negb (negb (f_swrite fl)) = false) by (destruct Hw as [-> | ->]; cbn; [reflexivity|apply andb_false_r]).
+    rewrite Hb. unfold published. eapply trusted_keys_intro; [apply lookup_in; apply lookup_filter_keep; [exact H5|]|exact Htr].
+    cbn. rewrite Hm3. reflexivity.
+  - intros s5 Hin. apply in_app_or in Hin. destruct Hin as [Hin|Hin].
+    + destruct (negb (f_twrite fl)); [destruct Hin as [Hin|[]]; discriminate|destruct Hin].
+    + destruct (negb (f_swrite fl)); [|destruct Hin]. destruct Hin as [Hin|[]]. inversion Hin. exact H5.
+  - intros tb Hin. apply in_app_or in Hin. destruct Hin as [Hin|Hin].
+    + destruct (negb (f_twrite fl)); [|destruct Hin]. destruct Hin as [Hin|[]]. inversion Hin. exact Hm3.
+    + destruct (negb (f_swrite fl)); [destruct Hin as [Hin|[]]; discriminate|destruct Hin].
+  - exact Hr3.
+Qed.
+
 End Live.
